@@ -1,7 +1,19 @@
 """Per-property configuration: which contract modules serve it, extra checks, assumptions."""
 from __future__ import annotations
 
+def _c10_extra(repo, reg, tier):
+    from contracts.payload import scan_payload_writes
+
+    return scan_payload_writes(repo, reg, tier)
+
+
 PROPS: dict[str, dict] = {
+    "C10": {
+        "modules": ["payload"],
+        "extra": [_c10_extra],
+        "assumptions": [],
+        "explanation": "attach_payload contracts (write-once, rejected attach changes nothing, frame) + AST scan: no other payload write in the library",
+    },
     "C06": {
         "modules": ["meta"],
         "assumptions": ["leaf relations declare truthful columns and row bounds (hypothesis of the property)",
